@@ -135,6 +135,10 @@ class Ctx:
         n_new = 0
         n_known = 0
         out_dir = os.path.join(VERIF, "replays", self.prop)
+        if os.path.isdir(out_dir):
+            for f in os.listdir(out_dir):
+                if f.endswith(".json"):
+                    os.remove(os.path.join(out_dir, f))
         for key in sorted(self.violations):
             v = self.violations[key]
             if key in known:
